@@ -20,7 +20,7 @@
 
 using namespace mc;
 const char *mc_id = "C09";
-const char *mc_rule = "DFS: all section/option trees up to depth D / fan-out F (sibling names distinct by default, up to B label deviations over names {a,b,ab,a1,a_b,'a b'} "
+const char *mc_rule = "DFS: all section/option trees up to depth D / fan-out F (sibling names distinct by default, up to B label deviations over names {a,b,ab,a1,a_b,'a b',empty} "
                       "permitted by the name flags and values {x, empty, 'x y', quoted with escaped quote, quoted with blanks+delimiters, f#g, quoted \"q\"}) "
                       "x 9 format strings (the 5 ctest formats, the default, 3 section styles) x decoration masks (indent, trailing blanks, blank lines, comment lines, trailing comments, "
                       "inner padding, line layout, no final newline, one item per line, decorations on every other line only), plus small trees holding one value of length 240..260 / 65530..65540 / 131077; "
@@ -60,6 +60,13 @@ static const char *stylename(char s) { return s == '*' ? "pre" : (s == ' ' ? "se
 static bool name_ok(const Fmt &f, bool sect, const char *name)
 {
 	bool digit = false, special = false, space = false;
+	if (!*name) {
+		// zero-length name: needs 'e' for that role; an encapsulated section name cannot be empty
+		if (sect && f.style == 'x') return false;
+		if (!f.flags) return true;
+		for (const char *p = f.flags; *p; ++p) if ((isupper((unsigned char) *p) != 0) == sect && tolower((unsigned char) *p) == 'e') return true;
+		return false;
+	}
 	for (const char *p = name + 1; *p; ++p) { if (isdigit((unsigned char) *p)) digit = true; else if (*p == ' ') space = true; else if (!isalnum((unsigned char) *p)) special = true; }
 	// the blank ends an encapsulated section name
 	if (space && sect && f.style == 'x') return false;
@@ -74,7 +81,7 @@ static bool name_ok(const Fmt &f, bool sect, const char *name)
 	}
 	return (!digit || okd) && (!special || oks) && (!space || okw);
 }
-static const char *NAMES[] = { "a", "b", "ab", "a1", "a_b", "a b" };
+static const char *NAMES[] = { "a", "b", "ab", "a1", "a_b", "a b", "" };
 
 // ------------------------------------------------------------------ model tree
 struct TN {
@@ -89,12 +96,12 @@ static std::string valrepr(const std::string &v)
 static void canon_model(const std::vector<TN> &l, std::string &out)
 {
 	for (const TN &n : l) {
-		out += n.name; out += '=' ; out += valrepr(n.val);
+		out += n.name.empty() ? std::string("<unnamed>") : n.name; out += '=' ; out += valrepr(n.val);
 		if (!n.kids.empty()) { out += '{'; canon_model(n.kids, out); out += '}'; }
 		out += ' ';
 	}
 }
-struct Feat { size_t nodes, maxlen; bool nested, quoted, escq, emptysect, emptyval, dup, depth3, blankname; };
+struct Feat { size_t nodes, maxlen, maxname; bool nested, quoted, escq, emptysect, emptyval, dup, depth3, blankname, emptyname; };
 static void features(const std::vector<TN> &l, int depth, Feat &f)
 {
 	for (size_t i = 0; i < l.size(); ++i) {
@@ -104,6 +111,8 @@ static void features(const std::vector<TN> &l, int depth, Feat &f)
 		if (n.quote) { f.quoted = true; if (n.val.find_first_of("\"'`") != std::string::npos) f.escq = true; }
 		if (n.sect && n.kids.empty()) f.emptysect = true;
 		if (n.name.find(' ') != std::string::npos) f.blankname = true;
+		if (n.name.empty()) f.emptyname = true;
+		if (n.name.size() > f.maxname) f.maxname = n.name.size();
 		if (!n.sect && n.val.empty()) f.emptyval = true;
 		if (!n.kids.empty()) { f.nested = true; if (depth >= 2) f.depth3 = true; }
 		for (size_t k = 0; k < i; ++k) if (l[k].name == n.name) f.dup = true;
@@ -242,7 +251,10 @@ static std::string render(const Fmt &f, const std::vector<TN> &tree, unsigned ma
 		bool comment_ok = !next_joined;
 		switch (l.kind) {
 		case 0:
-			d += l.n->name; d += pa; d += f.assign; d += pb; d += quoted(f, *l.n);
+			if (!l.n->name.empty()) { d += l.n->name; d += pa; d += f.assign; d += pb; }
+			// zero-length option name: "= value" in the prepending style, a value-only line where mpt_parse_option reads the line
+			else if (f.style == '*' && !f.oend) { d += f.assign; d += pb; }
+			d += quoted(f, *l.n);
 			if (f.oend) { d += pa; d += f.oend; }
 			break;
 		case 1:
@@ -250,6 +262,7 @@ static std::string render(const Fmt &f, const std::vector<TN> &tree, unsigned ma
 				d += l.n->name;
 				if (mask & LAYOUT) {   // name on its own line, section start is the next visible character
 					if (mask & TRAIL) d += flav ? fl.b : "  ";
+					if (mask & TRAILCOM) { if (!(cf == 1 || cf == 2)) d += (flav && fl.b[0]) ? fl.b : " "; d += com; d += ctext; }
 					d += '\n';
 					if (mask & BLANK) d += "\n";
 					if (mask & COMLINE) { d += com; d += ctext; d += '\n'; }
@@ -283,6 +296,8 @@ static std::string render(const Fmt &f, const std::vector<TN> &tree, unsigned ma
 		const std::string &nm = lines.back().n->name;
 		name_last = d.size() > nm.size() && d[d.size() - 1] == '\n' && d.compare(d.size() - 1 - nm.size(), nm.size(), nm) == 0;
 	}
+	// likewise the line end that terminates a value-only line (zero-length option name) read by mpt_parse_option
+	if (!lines.empty() && lines.back().kind == 0 && lines.back().n->name.empty() && f.style != '*' && !(mask & (BLANK | COMLINE))) name_last = true;
 	if ((mask & NOEOL) && !name_last && !d.empty() && d[d.size() - 1] == '\n') d.resize(d.size() - 1);
 	return d;
 }
@@ -330,7 +345,7 @@ static void gen_item(Gen &g, TN &n, bool sect, size_t sib)
 	n.sect = sect; n.quote = 0;
 	const std::vector<const char *> &names = sect ? g.sn : g.on;
 	n.name = names[(sib + g.pick(names.size())) % names.size()];
-	if (!sect) set_value(g.f, n, g.vals[g.pick(g.vals.size())]);
+	if (!sect) { if (n.name.empty()) set_value(g.f, n, 0); else set_value(g.f, n, g.vals[g.pick(g.vals.size())]); }
 }
 static void gen_list(Gen &g, std::vector<TN> &out, int depth)
 {
@@ -430,10 +445,10 @@ static std::vector<size_t> lens_for(const std::string &set)
 }
 
 // ------------------------------------------------------------------ one case
-enum Cnt { C_OK, C_CASES, C_UNDECO, C_NESTED, C_DEPTH3, C_QUOTED, C_ESCQ, C_EMPTYSECT, C_EMPTYVAL, C_DUP, C_BLANKNAME, C_NOTCONSUMED, C_TREES, C_NONTRIVIAL,
+enum Cnt { C_OK, C_CASES, C_UNDECO, C_NESTED, C_DEPTH3, C_QUOTED, C_ESCQ, C_EMPTYSECT, C_EMPTYVAL, C_DUP, C_BLANKNAME, C_EMPTYNAME, C_LONGNAME, C_NOTCONSUMED, C_TREES, C_NONTRIVIAL,
            C_LEN0, C_LEN1, C_LEN2, C_LEN3, C_BIT0, C_NCNT = C_BIT0 + 10 };
 static const char *cntname[] = { "held", "cases", "undecorated", "tree:nested", "tree:depth3", "value:quoted", "value:escaped-quote-kept", "tree:empty-section", "value:empty",
-           "tree:duplicate-sibling-names", "name:with-blank", "input-not-fully-consumed(not flagged)", "trees", "nontrivial",
+           "tree:duplicate-sibling-names", "name:with-blank", "name:empty", "name:256-or-longer", "input-not-fully-consumed(not flagged)", "trees", "nontrivial",
            "value:short", "value:len250-254", "value:len255-65535", "value:len>=65536" };
 static uint64_t g_cnt[C_NCNT];
 // per-tree cache: everything that does not depend on the decoration mask
@@ -452,7 +467,7 @@ static void check_case(Run &r, const Fmt &f, const std::vector<TN> &tree, unsign
 		tc.key = treekey; tc.want.clear(); canon_model(tree, tc.want);
 		memset(&tc.ft, 0, sizeof tc.ft); features(tree, 1, tc.ft);
 		tc.lencl = tc.ft.maxlen < 250 ? 0 : (tc.ft.maxlen < 255 ? 1 : (tc.ft.maxlen < 65536 ? 2 : 3));
-		tc.sigbase = std::string(stylename(f.style)) + "|" + lencls(tc.ft.maxlen) + (tc.ft.blankname ? ",blank-in-name" : "") + "|";
+		tc.sigbase = std::string(stylename(f.style)) + "|" + lencls(tc.ft.maxlen) + (tc.ft.blankname ? ",blank-in-name" : "") + (tc.ft.emptyname ? ",empty-name" : "") + (tc.ft.maxname >= 256 ? ",long-name" : "") + "|";
 		// undecorated reference parse
 		std::string plain = render(f, tree, 0);
 		Parsed pp = real_parse(r, f, plain); ++r.transitions;
@@ -490,9 +505,9 @@ static void check_case(Run &r, const Fmt &f, const std::vector<TN> &tree, unsign
 	if (mask) { for (int b = 0; b < NBITN; ++b) if (mask & (1u << b)) ++g_cnt[C_BIT0 + b]; }
 	else ++g_cnt[C_UNDECO];
 	g_cnt[C_NESTED] += ft.nested; g_cnt[C_DEPTH3] += ft.depth3; g_cnt[C_QUOTED] += ft.quoted; g_cnt[C_ESCQ] += ft.escq;
-	g_cnt[C_EMPTYSECT] += ft.emptysect; g_cnt[C_EMPTYVAL] += ft.emptyval; g_cnt[C_DUP] += ft.dup; g_cnt[C_BLANKNAME] += ft.blankname;
+	g_cnt[C_EMPTYSECT] += ft.emptysect; g_cnt[C_EMPTYVAL] += ft.emptyval; g_cnt[C_DUP] += ft.dup; g_cnt[C_BLANKNAME] += ft.blankname; g_cnt[C_EMPTYNAME] += ft.emptyname; g_cnt[C_LONGNAME] += ft.maxname >= 256;
 	++g_cnt[C_LEN0 + tc.lencl];
-	if (mask && (ft.nested || ft.maxlen >= 250)) ++g_cnt[C_NONTRIVIAL];
+	if (mask && (ft.nested || ft.maxlen >= 250 || ft.maxname >= 250)) ++g_cnt[C_NONTRIVIAL];
 	if (bad) return;
 	++g_cnt[C_OK];
 	if (p.consumed != doc.size()) ++g_cnt[C_NOTCONSUMED];
@@ -627,14 +642,16 @@ static void body(Run &r, const JobCtx &jc, Ctx &x)
 		size_t len = jc.lens[x.choose(jc.lens.size())];
 		lenfam = true;
 		if (len > 5000) { masks = &jc.masks_big; nflav = 1; }   // 64 KiB documents: fewer decoration subsets, default white space
-		size_t tpl = x.choose(3), wr = x.choose(3);
-		TN lv; lv.sect = false; lv.name = "b"; lv.val = longval(len); lv.quote = wr;
+		size_t tpl = x.choose(3), wr = x.choose(3), which = x.choose(3);   // which: long value / long option name / long section name
+		if (which && (len > 5000 || wr || (which == 2 && !tpl))) return;
+		std::string lname(len, 'n'); for (size_t i = 0; i < len; ++i) lname[i] = (char) ('a' + i % 23);
+		TN lv; lv.sect = false; lv.name = which == 1 ? lname : std::string("b"); lv.val = which ? std::string("x") : longval(len); lv.quote = wr;
 		if (wr == 2) { lv.val[0] = f.esc[0]; lv.val[len / 2] = f.esc[0]; lv.quote = 1; }   // escaped quotes at the start and in the middle
 		TN x1; x1.sect = false; x1.name = "a"; x1.val = "x"; x1.quote = 0;
 		TN x2; x2.sect = false; x2.name = "ab"; x2.val = "x y"; x2.quote = 0;
 		if (tpl == 0) tree.push_back(lv);
 		else {
-			TN s; s.sect = true; s.name = "a"; s.quote = 0;
+			TN s; s.sect = true; s.name = which == 2 ? lname : std::string("a"); s.quote = 0;
 			if (tpl == 2) s.kids.push_back(x1);
 			s.kids.push_back(lv);
 			if (tpl == 2) s.kids.push_back(x2);
